@@ -97,7 +97,7 @@ def run(ctx: Ctx):
         for rs in g["restarts"][:2]:
             fk = g["files"][rs["k"]]
             at, _ = c08.abs_times(fk)
-            rstep = int(round((at[-1] - sc["start"]) / scen.DT))
+            rstep = abs(int(round((at[-1] - sc["start"]) / scen.DT)))
             if rs["status"] != "ok" or npid_at.get(rstep, 0) > max(fk["pid"] + [-1]) + 1:
                 continue   # restart itself, and the unrecorded-pid finding, are C08's business
             sc2, rq = c08.warm_request(sc, g, rs["k"], base_recs)
